@@ -1,6 +1,6 @@
 (* C16 — property theorems.  Model: WModel/{LZ77,Codes,Encode,Compressor,WriterSM}.v — the pure-Go writer (acceleration level 0), compared byte for byte with the implementation on every run; the assembly levels are tied to it by the run-time contract checks (DESIGN.md 4.3).  Panics are run-time observations.
    Only statements, each closed by `exact`, followed by Print Assumptions. *)
-From Verif Require Import FinalSpec WriterTheorems WriterStateProofs TraceContent.
+From Verif Require Import FinalSpec WriterTheorems WriterStateProofs TraceContent ContainerWSpec ContainerWProofs.
 Open Scope N_scope.
 
 (* every finite sequence of Write, Flush, Close, Reset on a healthy destination runs to the end and
@@ -14,3 +14,8 @@ Theorem C16_closed_emits_nothing : closed_emits_nothing_statement.
 Proof. exact WriterStateProofs.closed_emits_nothing. Qed.
 Print Assumptions C16_closed_emits_nothing.
 (* the bytes up to the first successful Close form a complete stream of the data: C01 *)
+
+(* gzip and zlib Writers: a repeated Close returns nil and changes nothing *)
+Theorem C16_container_close_idempotent : cw_close_idempotent_statement.
+Proof. exact cw_close_idempotent. Qed.
+Print Assumptions C16_container_close_idempotent.
